@@ -34,7 +34,7 @@ type c16 struct{ base }
 
 func init() {
 	core.Register(c16{base{id: "C16", race: true, level: "exploration", quickB: 16, thoroughB: 32,
-		rule: "forced schedules = full product of connection state {idle, mid-message (header sent), a finished command followed in the same segment by part of the next message, parked at cmd:received, parked at cmd:admitted, inside parser, inside statement function, inside COPY read} x Close callers {1,2,3,8} x Close start {free, first arrivals parked at close:checked until all callers entered} x message kind {simple Query, Parse, Execute}, each on a fresh server (exhaustive in both tiers); after all Close calls returned a further query is sent on the same and on a new connection (boundary, no hooks). Stress = rounds of 1-16 connections firing queries while 1-4 goroutines call Close at PRNG-chosen moments, with random yields at every schedule point and transport operation, under the race detector. Non-trivial = schedule where Close overlaps an in-flight command or another Close; distinct = schedule tuple, for stress the hash of the global (actor,event) order.",
+		rule:        "forced schedules = full product of connection state {idle, mid-message (header sent), a finished command followed in the same segment by part of the next message, parked at cmd:received, parked at cmd:admitted, inside parser, inside statement function, inside COPY read} x Close callers {1,2,3,8} x Close start {free, first arrivals parked at close:checked until all callers entered} x message kind {simple Query (single statement / three statements), Parse, Execute}, each on a fresh server (exhaustive in both tiers); after all Close calls returned a further query is sent on the same and on a new connection (boundary, no hooks). Stress = rounds of 1-16 connections firing queries while 1-4 goroutines call Close at PRNG-chosen moments, with random yields at every schedule point and transport operation, under the race detector. Non-trivial = schedule where Close overlaps an in-flight command or another Close; distinct = schedule tuple, for stress the hash of the global (actor,event) order.",
 		need:        []string{"forced_schedules", "close_overlaps_running_handler", "close_overlaps_admission", "concurrent_close_groups", "post_close_queries", "stress_rounds", "race_detector_active_batches", "serve_returned_nil"},
 		assumptions: append([]string{"for several concurrent Close calls the wait/finality guarantees are asserted once all of them have returned; the settle period used before releasing a parked goroutine only affects detection power, never soundness"}, commonAssumptions...)}})
 }
@@ -179,6 +179,18 @@ func (ch c16) parseFn(e *c16env) wire.ParseFn {
 			e.observe("Close returned while the statement function was still running (query " + query + ")")
 			return w.Complete("SELECT 1")
 		}
+		if strings.HasSuffix(query, "+more") {
+			// a multi-statement simple query: one command, two further statements behind the first
+			more := func(ctx context.Context, w wire.DataWriter, _ []wire.Parameter) error {
+				e.running.Add(1)
+				defer e.running.Add(-1)
+				e.observe("a later statement of a multi-statement query began/ran after every Close call had returned (query " + query + ")")
+				w.Row([]any{"y"})
+				e.observe("Close returned while a later statement of a multi-statement query was still running (query " + query + ")")
+				return w.Complete("SELECT 1")
+			}
+			return wire.Prepared(wire.NewStatement(fn, wire.WithColumns(cols)), wire.NewStatement(more, wire.WithColumns(cols)), wire.NewStatement(more, wire.WithColumns(cols))), nil
+		}
 		return wire.Prepared(wire.NewStatement(fn, wire.WithColumns(cols))), nil
 	}
 }
@@ -205,6 +217,10 @@ func (ch c16) runForced(c *core.Ctx, s c16sched, idx int) {
 			return pg.Parse("s", q, nil)
 		case "exec":
 			return append(append(pg.Parse("s", q, nil), pg.Bind("", "s", nil, nil, nil)...), pg.Execute("", 0)...)
+		}
+		if idx%2 == 0 {
+			c.Count("multi_statement_queries_in_flight", 1)
+			return pg.Query(q + "+more")
 		}
 		return pg.Query(q)
 	}
@@ -452,7 +468,7 @@ func (ch c16) runStress(c *core.Ctx, round int) {
 				}
 				switch kind {
 				case 0:
-					cl.Step(pg.Query(fmt.Sprintf("s c%d q%d", i, q)))
+					cl.Step(pg.Query(fmt.Sprintf("s c%d q%d%s", i, q, []string{"", "+more"}[q%2])))
 				case 1:
 					cl.Step(append(append(append(pg.Parse("", fmt.Sprintf("p c%d q%d", i, q), nil), pg.Bind("", "", nil, nil, nil)...), pg.Execute("", 0)...), pg.Sync()...))
 				default:
